@@ -98,9 +98,13 @@ def faults_for_event(kind, nth, interrupts=False):
     return out
 
 
-def tampers_for_reply(j, reply_len):
+def tampers_for_reply(j, reply_len, every_byte=False):
     out = [{"reply": j, "tamper": t} for t in TAMPERS]
-    for at in sorted(set([0, 1, max(0, reply_len // 2), max(0, reply_len - 1)])):
+    if every_byte and reply_len <= 80:
+        positions = range(0, reply_len)           # end-of-stream / silence at EVERY byte of a short reply
+    else:
+        positions = sorted(set([0, 1, 2, max(0, reply_len // 2), max(0, reply_len - 2), max(0, reply_len - 1)]))
+    for at in positions:
         for then in ("eof", "silence"):
             out.append({"reply": j, "tamper": "trunc", "at": at, "then": then})
     return out
@@ -120,8 +124,32 @@ class Run:
         self.replies_by_call = {}  # call -> [len(reply)]
 
 
+class FailingSerde:
+    """serializes verbatim; deserialize raises the configured exception for keys listed (all keys when none listed)"""
+    import zlib as _zlib
+    EXC = {"ValueError": ValueError, "TypeError": TypeError, "KeyError": KeyError, "RuntimeError": RuntimeError, "IndexError": IndexError,
+           "UnicodeDecodeError": lambda m: UnicodeDecodeError("utf-8", b"x", 0, 1, m), "zlib.error": _zlib.error, "AttributeError": AttributeError,
+           "Exception": Exception, "EOFError": EOFError}
+
+    def __init__(self, exc, keys=None):
+        self.exc = exc
+        self.keys = keys
+
+    def serialize(self, key, value):
+        return value, 0
+
+    def deserialize(self, key, value, flags):
+        k = key if isinstance(key, bytes) else str(key).encode()
+        if self.keys is None or any(k.endswith(x.encode() if isinstance(x, str) else x) for x in self.keys):
+            raise self.EXC[self.exc]("cannot deserialize")
+        return value
+
+
 def make_client(env, kind, cfg):
     kw = {}
+    if cfg.get("failing_serde"):
+        fs = cfg["failing_serde"]
+        kw["serde"] = FailingSerde(fs["exc"], fs.get("keys"))
     for k in ("default_noreply", "ignore_exc", "key_prefix", "no_delay", "connect_timeout", "timeout", "serde"):
         if k in cfg:
             kw[k] = cfg[k]
@@ -164,6 +192,9 @@ def interpret(case, observer=None):
         env.net.resolve[host] = res
     if case.get("coalesce") is False:
         env.net.coalesce = False
+    if case.get("latency"):
+        env.net.latency = case["latency"]
+        env.net.clock = env.clock
     for srv in env.servers:
         preload(srv, cfg.get("key_prefix", b"") if isinstance(cfg.get("key_prefix", b""), bytes) else cfg["key_prefix"].encode())
     run = Run()
